@@ -202,6 +202,38 @@ pub fn replay_direct(ctx: &Ctx, doc: &psc_model::serde_json::Value) -> Option<Re
 	Some(check_bytes(e, &bytes, "replay", &mut st))
 }
 
+/// The bit-length cap can only be told apart from "not enough data" with 64 MiB of payload.
+fn bit_cap_cases(ctx: &Ctx, report: &mut Report) {
+	let e = ctx.entry("BitVec<u8, Lsb0>");
+	let dec = e.decode_slice.unwrap();
+	for (bits, expect_ok) in [((1u64 << 29) - 1, true), (1 << 29, false), ((1 << 29) + 8, false)] {
+		let mut input = psc_model::enc::compact_bytes(u128::from(bits));
+		let head = input.len();
+		input.resize(head + (bits as usize + 7) / 8 + 4, 0);
+		let r = guard(|| {
+			let (r, used) = dec(&input);
+			(r.is_ok(), used)
+		});
+		report.stats.eval();
+		report.stats.class("bit-count around 2^29 with a full 64 MiB payload");
+		report.stats.nontrivial(&("bitcap", bits));
+		let ok = match r {
+			Ok((ok, used)) => ok == expect_ok && (!ok || used == head + (bits as usize + 7) / 8),
+			Err(_) => false,
+		};
+		if !ok {
+			report.direct(
+				&ctx.known,
+				Violation::new(
+					"C03/bit-length-cap",
+					format!("BitVec<u8, Lsb0> with a claimed length of {bits} bits and a full payload: expected {}, got {r:?}", if expect_ok { "acceptance" } else { "rejection (more than 2^29-1 bits)" }),
+				),
+				json!({"kind": "none"}),
+			);
+		}
+	}
+}
+
 pub fn run(ctx: &Ctx) -> (Level, Report) {
 	let mut report = Report::default();
 	for (name, check) in tape_checks(ctx) {
@@ -209,6 +241,9 @@ pub fn run(ctx: &Ctx) -> (Level, Report) {
 		report.absorb(name, out);
 	}
 	exhaustive(ctx, &mut report);
+	if ctx.tier == Tier::Thorough {
+		bit_cap_cases(ctx, &mut report);
+	}
 	(
 		Level {
 			level: "exploration",
